@@ -20,8 +20,8 @@ CLAIM = {
              "C10_fail_uptodate); amounts already in T pass unchanged (C10_untouched); conversion is linear (C10_linear, "
              "C10_amount_linear); rounding is applied only after conversion, i.e. only to T's precision (C10_round_only_T)."),
     "note": ("rust_decimal is modelled as exact rationals (generated rates are 2^a*5^b). Rates are 'whatever the C09 price table "
-             "holds': which chain that is, is C09's business. The CLI stream always passes --now. Price-db lines reach the model "
-             "as the generator's structured records."),
+             "holds': which chain that is, is C09's business. The CLI stream always passes --now. The price-db TEXT is parsed and loaded by "
+             "the model itself (Okane.PriceDbFile, see C09); the generator's structured records are only a cross-check."),
     "design_ref": "DESIGN.md section 6 C10 (F20 fixed in /repo by c960ee4; its witness is in the fixed cases)",
 }
 
